@@ -28,7 +28,12 @@ RULE = ("cases from the seed: ONE electric plane: symmetry axis 0..2, half size 
         "first difference exactly at c = n + d - 1]; detector rows (unfold_detector_states vs the full-domain detector) wherever "
         "c_a >= n + d + 1 (a = x, y: the co-location stencil reads one cell back) resp. c_a >= n + d (z: it reads forward), minus "
         "the filler cell of an unfolded box. K: forward on the full container vs model fwd; forward on the reduced container vs "
-        "model redfwd (single-axis reduction once per plane; 1 step and all steps), 1e-9; the boundary objects of the reduced "
+        "model redfwd (single-axis reduction once per plane; 1 step and all steps), 1e-9; every case is stepped a second time with "
+        "forward(..., simulate_boundaries=False) on the same placed scenes (the flag only freezes the PML psi arrays; symmetry "
+        "wall, PEC, PMC and halo rules ignore it): without PML objects flag-off = flag-on (1e-12) = model on both containers, and "
+        "the light-cone oracle is evaluated on the flag-off runs of every case (PML included); one forced case also goes through the "
+        "library loop custom_fdtd_forward(reset_container=False) (run_fdtd itself zeroes the fields first, so an initial-field "
+        "scene cannot use it): = forward iterated, and the oracle on its result; the boundary objects of the reduced "
         "container (one wall per plane: type/axis/side/slice, dropped min-side objects) exactly; odd cell counts are rejected "
         "by both. non-trivial = (axes, ms, far, faces, tiers, seed).")
 
@@ -270,20 +275,24 @@ def expected_signature(c):
     return sorted(out)
 
 
-def run_both(c, nsteps):
-    """implementation runs: list over steps n = 1..nsteps of (E_red, H_red, E_full, H_full), detector states"""
+def run_both(c, nsteps, sim=True, rec=None, built=None):
+    """implementation runs with forward(..., simulate_boundaries=sim): list over steps n = 1..nsteps of
+    (E_red, H_red, E_full, H_full), detector states.  `built` = (full, red, sym, R, F) reuses placed scenes."""
     j = Y.J()
     jnp = j["jnp"]
-    full, red, sym = scenes(c)
-    R, F = materialise(c)
+    if built is None:
+        full, red, sym = scenes(c)
+        R, F = materialise(c)
+    else:
+        full, red, sym, R, F = built
     ar = Y.with_state(red, R[0], R[1], R[2], R[3], R[4], R[5])
     af = Y.with_state(full, F[0], F[1], F[2], F[3], F[4], F[5])
     jax = j["jax"]
-    rec = bool(c["det"])
+    rec = bool(c["det"]) if rec is None else rec
 
     def stepper(sc):      # the public time step, jit-compiled once per container (eager dispatch is 5x slower on fresh shapes)
         return jax.jit(lambda a, t: j["forward"]((t, a), sc.config, sc.objects, key=jax.random.PRNGKey(0),
-                                                 record_detectors=rec, record_boundaries=False, simulate_boundaries=True)[1])
+                                                 record_detectors=rec, record_boundaries=False, simulate_boundaries=sim)[1])
     fr, ff = stepper(red), stepper(full)
     hist = []
     for n in range(1, nsteps + 1):
@@ -394,7 +403,14 @@ def property_fails(c):
         return None
     try:
         full, red, sym, R, F, hist, det = run_both(c, nsteps_of(c))
-        return oracle(c, sym, hist, det)[0]
+        d = oracle(c, sym, hist, det)[0]
+        if d:
+            return d
+        # the same with forward(..., simulate_boundaries=False): the flag only freezes the PML auxiliary fields; the symmetry
+        # wall and every PEC/PMC wall are enforced regardless of it
+        hist0 = run_both(c, nsteps_of(c), sim=False, rec=False, built=(full, red, sym, R, F))[5]
+        d = oracle(c, sym, hist0, None)[0]
+        return ("with simulate_boundaries=False: " + d) if d else None
     except UnfoldFailure as e:
         return str(e)
 
@@ -440,6 +456,61 @@ def one_case(ctx, c, sample=False):
         ctx.evaluations -= 1
         if detail:
             ctx.violation(c, detail)
+    # forward(..., simulate_boundaries=False) on the same placed scenes.  In the code as it is the flag reaches only
+    # PerfectlyMatchedLayer.step_cpml (psi arrays are not advanced); update_E / update_H, apply_boundary_post_E/H_update
+    # (symmetry wall, PEC, PMC) and the halo rules ignore it.  So without PML objects the runs must coincide with the
+    # flag-on runs and with the model; with PML objects (psi frozen at 0) only the oracle applies.
+    hist0 = run_both(c, nsteps, sim=False, rec=False, built=(full, red, sym, R, F))[5]
+    ctx.case(nontrivial=None, flag_off_run=True)
+    ctx.evaluations -= 1
+    if c["far"] != "pml":
+        for k in (1, nsteps):
+            for who, a, b in (("reduced", 0, 1), ("full", 2, 3)):
+                ctx.expect_close(f"{who} container, step {k}: forward(simulate_boundaries=False) vs forward(simulate_boundaries=True)", c,
+                                 np.concatenate([hist0[k - 1][a].ravel(), hist0[k - 1][b].ravel()]),
+                                 np.concatenate([hist[k - 1][a].ravel(), hist[k - 1][b].ravel()]), tol=1e-12)
+        mE, mH = Y.decode_fields(ctx.driver.ask(red_request(full, c, F, nsteps)), list(red.shape))
+        ctx.expect_close(f"reduced container: {nsteps} step(s) of forward(simulate_boundaries=False) vs model reduction", c,
+                         np.concatenate([hist0[nsteps - 1][0].ravel(), hist0[nsteps - 1][1].ravel()]),
+                         np.concatenate([mE.ravel(), mH.ravel()]))
+    if c["far"] != "periodic":
+        ctx.impl_property_evals += 1
+        detail, _ = oracle(c, sym, hist0, None)
+        if detail:
+            ctx.violation(c, "with simulate_boundaries=False: " + detail)
+    if c.get("run_fdtd"):
+        run_fdtd_check(ctx, c, full, red, R, F, hist)
+
+
+def run_fdtd_check(ctx, c, full, red, R, F, hist):
+    """the library time loop.  run_fdtd itself calls arrays.reset() (fields zeroed), so a scene driven by initial fields
+    cannot go through it; its loop is custom_fdtd_forward, which is called here with reset_container=False for `n` steps
+    (it always passes simulate_boundaries=True).  Compared with forward() iterated, and the property oracle (light cone)
+    is evaluated on its result."""
+    j = Y.J()
+    jax, jnp = j["jax"], j["jnp"]
+    from fdtdx.fdtd.fdtd import custom_fdtd_forward
+    n = nsteps_of(c)
+    res = {}
+    for who, sc, S in (("reduced", red, R), ("full", full, F)):
+        a0 = Y.with_state(sc, S[0], S[1], S[2], S[3], S[4], S[5])
+        t_end, out = custom_fdtd_forward(arrays=a0, objects=sc.objects, config=sc.config, key=jax.random.PRNGKey(0),
+                                         reset_container=False, record_detectors=False, start_time=0, end_time=n,
+                                         show_progress=False)
+        res[who] = (np.asarray(out.fields.E), np.asarray(out.fields.H))
+        ctx.expect_equal(f"{who} container: custom_fdtd_forward end step", c, int(t_end), n)
+    for who, a, b in (("reduced", 0, 1), ("full", 2, 3)):
+        ctx.expect_close(f"{who} container: custom_fdtd_forward ({n} steps) vs forward() iterated", c,
+                         np.concatenate([res[who][0].ravel(), res[who][1].ravel()]),
+                         np.concatenate([hist[n - 1][a].ravel(), hist[n - 1][b].ravel()]), tol=1e-12)
+    ctx.case(nontrivial=None, library_loop=True)
+    ctx.evaluations -= 1
+    ctx.impl_property_evals += 1
+    # evaluate the oracle on the last step only: pad the history so that the step index is right
+    fake = [hist[i] for i in range(n - 1)] + [(res["reduced"][0], res["reduced"][1], res["full"][0], res["full"][1])]
+    detail, _ = oracle(c, sym_of(c), fake, None)
+    if detail:
+        ctx.violation(c, "custom_fdtd_forward: " + detail)
 
 
 def odd_case(ctx, c):
@@ -461,7 +532,8 @@ def odd_case(ctx, c):
 FORCED = [
     dict(axis=0, m=3, far="none", tshape=[3, 2], tfaces=[["periodic", "periodic"], ["pec", "pmc"]], det="tie", nonuniform=False, eps_tier=3),
     dict(axis=1, m=2, far="pec", tshape=[2, 3], tfaces=[["none", "none"], ["periodic", "periodic"]], det=True, nonuniform=True, sig_e=True),
-    dict(axis=2, m=2, far="pmc", tshape=[3, 1], tfaces=[["pec", "none"], ["none", "none"]], det="tie", nonuniform=False, mu_tier=3, sig_h=True),
+    dict(axis=2, m=2, far="pmc", tshape=[3, 1], tfaces=[["pec", "none"], ["none", "none"]], det="tie", nonuniform=False, mu_tier=3, sig_h=True,
+         run_fdtd=True),
     dict(axis=2, m=1, far="none", tshape=[2, 2], tfaces=[["periodic", "periodic"], ["periodic", "periodic"]], det=False),
     dict(axis=0, m=2, far="periodic", tshape=[2, 2], tfaces=[["none", "none"], ["pmc", "pmc"]], det=False),
     dict(axis=1, m=3, far="pml", tshape=[2, 2], tfaces=[["periodic", "periodic"], ["none", "none"]], det=False),
